@@ -490,8 +490,11 @@ class The(ResultQuantifier[T]):
     def evaluate(self) -> TypingUnion[Iterable[T], T, UnificationDict]:
         completed = False
         try:
-            result = self._evaluate_()
-            result = self._process_result_(result)
+            # as An does: evaluation always runs outside symbolic mode, also when called inside a symbolic block,
+            # such that predicates are executed and instances are constructed concretely.
+            with symbolic_mode(mode=None):
+                result = self._evaluate_()
+                result = self._process_result_(result)
             completed = True
         finally:
             # also when NoSolutionFound/MultipleSolutionFound is raised, otherwise the next evaluation starts from
